@@ -275,6 +275,7 @@ type Result struct {
 	Snapshots int      `json:"snapshots"`
 	Resets    int      `json:"resets"`
 	Typed     int      `json:"typed_handlers"`  // testify methods exercised through a typed Run / RunAndReturn handler
+	Timeouts  []string `json:"timeouts"`        // re-entrancy probes that hit the watchdog
 	Skipped   []string `json:"typed_skipped"`   // ... not exercised: the handler already misbehaves single-threaded (C03's subject)
 	Errors    []string `json:"errors"`
 }
@@ -652,6 +653,15 @@ func stressMatryer(job Job, mk func() any, withResets bool, res *Result, E *errs
 	res.Resets += int(resets)
 }
 
+// the only wall-clock assumption of this driver: how long a re-entrant call may take before it is called a
+// deadlock (6 s, DRV_WATCHDOG_MS overrides).  Everything else is channel / WaitGroup rendezvous.
+func watchdog() time.Duration {
+	if ms, err := strconv.Atoi(os.Getenv("DRV_WATCHDOG_MS")); err == nil && ms > 0 {
+		return time.Duration(ms) * time.Millisecond
+	}
+	return 6 * time.Second
+}
+
 // ---------------------------------------------------------------- re-entrancy probe
 // A user function may use the mock it is serving: read <M>Calls() (which must already contain the
 // running call), call <M> again, reset, or wait for another goroutine that uses <M>.  A generated
@@ -723,7 +733,15 @@ func probeReentrancy(job Job, mk func() any, res *Result, E *errs) bool {
 					E.add("%s re-entrancy(reset): %d records right after Reset%sCalls() inside %sFunc, want 0", job.Mock, seen, m.name, m.name)
 				}
 			}
-		case <-time.After(6 * time.Second):
+		case <-time.After(watchdog()):
+			select {
+			case <-done: // finished while this goroutine was waiting to be scheduled: not a timeout
+				res.Calls++
+				continue
+			default:
+			}
+			// first-stage verdict only: harness/checks/c05.py re-runs this job alone with a 60 s watchdog
+			res.Timeouts = append(res.Timeouts, variant)
 			E.add("%s re-entrancy(%s): deadlock - %s never returned although %sFunc only used the mock it serves (lock%s still held while the user function runs?)", job.Mock, variant, m.name, m.name, m.name)
 			ok = false
 		}
@@ -1004,7 +1022,7 @@ func main() {
 			fmt.Fprintln(os.Stderr, "unknown mock:", j.Mock)
 			os.Exit(2)
 		}
-		res := Result{Mock: j.Mock, Errors: []string{}, Skipped: []string{}}
+		res := Result{Mock: j.Mock, Errors: []string{}, Skipped: []string{}, Timeouts: []string{}}
 		E := &errs{}
 		func() {
 			defer func() {
